@@ -1,5 +1,5 @@
 #!/usr/bin/env python3
-"""tools_seed.py import <Cxx> <srcdir>   — confirm the seeds a sub-agent left in <srcdir> (patch.diff/demo_test.go/meta.json
+"""tools_seed.py import <Cxx> <srcdir> [letters, default ab]   — confirm the seeds a sub-agent left in <srcdir> (patch.diff/demo_test.go/meta.json
                                            and patch2.diff/...), and store the confirmed ones under /verif/seeded/<Cxx>-a|b/
    tools_seed.py run [name ...] [--tier quick] — run the property's check against every stored seed (scratch worktree with the
                                            patch applied, VERIF_REPO) and record caught/missed in seeded/results.json"""
@@ -94,7 +94,8 @@ def run(names, tier):
 
 if sys.argv[1] == 'import':
     prop, src = sys.argv[2], sys.argv[3]
-    confirm(prop, src, '', 'a'); confirm(prop, src, '2', 'b')
+    letters = sys.argv[4] if len(sys.argv) > 4 else 'ab'
+    confirm(prop, src, '', letters[0]); confirm(prop, src, '2', letters[1])
 else:
     args = sys.argv[2:]
     tier = 'quick'
